@@ -19,7 +19,8 @@ THEOREMS = [P + t for t in (
     "reg_read_eq_blob", "reg_write_patches_blob", "reg_read_after_write", "reg_history", "reg_cleared",
     "xen_records", "xen_reg_read_eq_section", "xen_cpu_frame", "xen_reg_write_patches_record", "xen_history",
     "version_code_coherent", "version_history", "version_cleared",
-    "vmci_lines_split", "vmci_lines_view", "vmci_raw_unchanged", "vmci_dir_refused", "vmci_dot_refused")]
+    "vmci_lines_split", "vmci_lines_view", "vmci_raw_unchanged", "vmci_dir_refused", "vmci_dot_refused",
+    "vmci_typed_last_row", "vmci_symbol_view")]
 M64 = (1 << 64) - 1
 
 # ----------------------------------------------------------------------------- ABI
@@ -605,8 +606,10 @@ def parse_typed(kind, val):
         if rx.match(val):
             n = int(val, base)
             return ("num", n) if n <= M64 else ("unknown",)
-    if re.match(r"^[g-wyzG-WYZ_]", val):
-        return ("bad",)          # (an empty value converts to 0: strtoull semantics, no expectation)
+    # clearly not a number: a character that no strtoull base can consume, with nothing but (possible) digits in front of it,
+    # or a blank behind the first characters (an empty value converts to 0: strtoull semantics, no expectation)
+    if re.match(r"^[0-9a-fA-F]*[g-wyzG-WYZ_]", val) or re.match(r"^[0-9a-fA-FxX]+ ", val):
+        return ("bad",)
     return ("unknown",)
 
 
@@ -739,9 +742,10 @@ def check_vmci(case, obs):
                     raise KnownOrFail(i, "%s(%s) is %s in the typed view, the text %r says %d" % (tn, sym, got.get(sym), text, e[1]),
                                       conflict and "vmci-dotted-prefix")
                 if e[0] == "bad" and sym in got:
-                    stale = len(seenkeys[sym]) > 1
-                    raise KnownOrFail(i, "%s(%s) = %s in the typed view, but the last row of the text %r gives it the non-numeric value %r"
-                                      % (tn, sym, got[sym], text, seenkeys[sym][-1]), stale and "vmci-stale-typed")
+                    # the last row of a key decides: a value that does not parse leaves NO typed value (an earlier row's is cleared)
+                    raise FailAt(i, "%s(%s) = %s in the typed view, but the last row of the text %r gives it the non-numeric value %r%s"
+                                 % (tn, sym, got[sym], text, seenkeys[sym][-1],
+                                    " (the value of an earlier row with the same key is stale)" if len(seenkeys[sym]) > 1 else ""))
             for sym in got:
                 if sym not in last:
                     raise FailAt(i, "%s.%s = %s has no row in the text %r" % (tn, sym, got[sym], text))
@@ -773,8 +777,8 @@ def check_vmci(case, obs):
                     raise KnownOrFail(i, "kdump_vmcoreinfo_symbol(%r) returns %s, the text %r says %#x" % (sym, got, text, e[1]),
                                       conflict and "vmci-dotted-prefix")
                 if e[0] == "bad" and got is not None:
-                    raise KnownOrFail(i, "kdump_vmcoreinfo_symbol(%r) = %#x but the last row gives %r" % (sym, got, vals[-1]),
-                                      len(vals) > 1 and "vmci-stale-typed")
+                    raise FailAt(i, "kdump_vmcoreinfo_symbol(%r) = %#x but the last row of the text %r gives it the non-numeric value %r"
+                                 % (sym, got, text, vals[-1]))
         elif l == "get linux.version_code" or l == "get linux.uts.release":
             pass
     if known:
